@@ -16,7 +16,7 @@ for m in sorted(glob.glob("/verif/seeded/*/*/meta.json")):
     git("checkout", "-q", "--", ".")
     if git("apply", "--whitespace=nowarn", os.path.join(os.path.dirname(m), "patch.diff")).returncode != 0:
         print(m, "NOAPPLY"); continue
-    out = subprocess.run([binp, "-property", d["property"]], capture_output=True, text=True,
+    out = subprocess.run([binp, "-property", d["property"]], capture_output=True, text=True, errors="replace",
                          env=dict(os.environ, VERIF_REPO=wt, VERIF_DIR=wt + "-verif")).stdout
     rules = re.findall(r"VIOLATION .*\n\s+rule=(\S+) subject=(\S+) at (\S+)\n\s+required: (.*)", out)
     if rules:
